@@ -10,6 +10,7 @@ import os
 import vlib
 from vlib import gZ, gbool, glist
 from props import c19_prims
+from props import c19_families
 
 PID = 'C19'
 COQ_DIRS = ['common', 'C19']
@@ -17,7 +18,7 @@ TARGETS = ['C19/Props.vo', 'C19/Corr.vo', 'C19/Sweep.vo']
 MODEL_TARGETS = ['C19/Corr.vo', 'C19/Sweep.vo']
 PROPS_FILE = 'C19/Props.v'
 PROPS_MODULE = 'QV.C19.Props'
-CORR_IMPORTS = ['QV.C19.Model', 'QV.C19.Spec', 'QV.C19.Driver', 'QV.C19.Corr']
+CORR_IMPORTS = ['QV.C19.Model', 'QV.C19.Spec', 'QV.C19.Driver', 'QV.C19.DriverLens', 'QV.C19.Corr']
 CHECK_CORR = 'check_corr'
 CHECK_SPEC = 'check_spec'
 SHARD = 400
@@ -51,7 +52,18 @@ RULE = ('place cases: memory layout (slot hashes, reference counts, capacities, 
         'in a program, a program that is the idle waveform, tight totals, the same content under three names, forced '
         're-upload of identical content, a name removed twice), random histories with 15 % / 40 % idle segments, all '
         'histories of length <= 2 (quick) / <= 3 (thorough) over 21 operations + samples of length 3-6.  sweep: complete '
-        'scopes judged inside Coq from packed decisions (quick (1,1) (1,2) (2,1); thorough + (3,2) (2,3)).  Non-trivial = place '
+        'scopes judged inside Coq from packed decisions (quick (1,1) (1,2) (2,1); thorough + (3,2) (2,3)).  Round 4: '
+        'dtype family (c19_families.dtype_family): reference counts {uint32,int64} x capacities {uint32,int64} x new lengths '
+        '{uint64,uint32,int64,list,int32,uint16} (+ hashes as list) on 7 layouts at total = refusal threshold - 1 / threshold, '
+        'sizes x1 and x65536 (quick 520; thorough 5680 with all totals around both thresholds and 4 scales), through the '
+        'shared function and the feature copy, + random layouts in random dtype mixes (200 / 6000); histories draw the dtype '
+        'of the lengths the stand-in TaborProgram delivers (uint64 = the real one 60 %, uint32, int64, list); '
+        'tail_reuse_family: 26 histories x 4 length dtypes x both drivers in which an upload re-uses (by hash) a slot that is '
+        'unreferenced and behind the last referenced slot and also appends (forced re-uploads, free without cleanup, '
+        'refused uploads in between, tight totals); lens_family: 8 histories x 2 dtypes x both drivers in which freed slots '
+        'are overwritten by shorter segments and 1/2/3 segments are appended (both branches of the length update in '
+        '_amend_segments).  Observation of a history step now includes _segment_lengths and the fake instrument\'s table of '
+        'defined segment lengths (:TRAC:DEF, download_segment_lengths, TRAC:DEL).  Non-trivial = place '
         'case with a slot, an unknown segment and a decision or Fragmentation refusal; history that reaches >= 3 slots '
         'with a known program; primitive on >= 2 elements.')
 TRUSTED = [
@@ -69,6 +81,11 @@ TRUSTED = [
     'decisions; Coq enumerates the same index range itself (coq/C19/Sweep.v::scope_item, scope_total) and judges every layout; '
     'a disagreement between the two enumerations shows up as rejected layouts',
     'a program segment with the hash of the idle segment (stand-in Seg(0, 192)) stands for "bit-identical to the idle waveform"',
+    'numpy integer dtype arithmetic (uint16/32/64, int32/64, python ints, mixed) equals integer arithmetic on the generated '
+    'sizes: exercised by the dtype families against the Z model on both refusal thresholds, not proved',
+    'fake instrument, length table: `:TRAC:DEF n, len` sets the defined length of slot n, download_segment_lengths(list) sets '
+    'slot k+1 := list[k] for all k, TRAC:DEL n drops it; what the real instrument does with a slot defined shorter than its '
+    'capacity (addresses) is not modelled',
 ]
 ASSUMPTIONS = [
     'the three memory arrays have equal length and the two new-segment arrays have equal length (maintained by the driver, '
@@ -77,6 +94,11 @@ ASSUMPTIONS = [
     'reachable with realistic sizes (total_capacity - np.sum(uint32 capacities) < 0) was repaired in /repo 27dd4b7 '
     '(shared function) and 4f02520 (copy in feature_awg/tabor.py) and is exercised by the dtype:drv streams',
     'capacity theorem: segment lengths are >= 0 (numbers of points; unsigned in the driver) and total capacity >= 192',
+    'length theorems (C19_history_lengths, C19_history_program_lengths): the length of a segment is a function of its hash '
+    '(no two different segments share a hash; the idle segment has 192 points) - the same identification of content and '
+    'hash the driver model rests on',
+    'tie-order theorems: whatever numpy\'s default argsort does with equal keys, it returns a permutation of the positions '
+    'that sorts the keys (oracle_ok); the oracle may answer differently in every call',
 ]
 
 HASHES = [1, 2, 3]
@@ -186,7 +208,7 @@ def gen_cases(rng, tier, ctx):
             total = rng.choice(_totals(rng, refs, caps, nh, nl, hashes))
             cases.append(_mk(hashes, refs, caps, total, nh, nl))
     # ---- random small / larger
-    n_small, n_large, n_mal, n_drv = (500, 150, 120, 150) if not thorough else (12000, 3000, 2000, 3000)
+    n_small, n_large, n_mal, n_drv = (380, 120, 100, 120) if not thorough else (12000, 3000, 2000, 3000)
     hp = [1, 2, 3, 4, 5, -3]
     cp = [192, 208, 224, 256, 384, 400]
     lp = [192, 208, 224, 256, 384, 400, 176, 1024]
@@ -212,6 +234,21 @@ def gen_cases(rng, tier, ctx):
             t = rng.choice([0, 100, sum(c) - 1, sum(c) - 192, sum(x for x, y in zip(c, r) if y > 0) - 16])
             t = max(t, 0)
         cases.append(_mk(h, r, c, t, nh, nl, dtype=rng.choice(['drv', 'drv64'])))
+    # ---- round 4: every integer dtype the callers use for each of the five arrays (unsigned, mixed), on the refusal
+    # thresholds, small sizes and sizes near a real instrument's capacity; both copies of the placement
+    for c in c19_families.dtype_family(thorough):
+        cases.append(c)
+        if c['dts']['nh'] != 'list' and c['dts']['nl'] != 'list' and c['dts']['c'] == 'u4':
+            cases.append(dict(c, impl='feature'))
+    # random layouts in random dtype combinations (the driver's own combination half of the time), tight totals
+    for k in range(200 if not thorough else 6000):
+        h, r, c, t, nh, nl = _rand_place(rng, 8, 5, hp, cp, lp[:6], [0, 0, 0, 1, 1, 2, 3])
+        if rng.random() < 0.2:
+            t = max(rng.choice([0, 100, sum(c) - 1, sum(c) - 192, sum(x for x, y in zip(c, r) if y > 0) - 16]), 0)
+        cs = dict(_mk(h, r, c, t, nh, nl, dtype='mix'), dts=c19_families.rand_dts(rng))
+        if k % 4 == 0 and cs['dts']['nh'] != 'list' and cs['dts']['nl'] != 'list':
+            cs['impl'] = 'feature'
+        cases.append(cs)
     # ---- the second copy of the placement (feature_awg/tabor.py::TaborChannelTuple._find_place_for_segments_in_memory):
     # unstable default sort, MemoryError instead of RuntimeError; distinct capacities / lengths in about half of the cases
     for _ in range(300 if not thorough else 8000):
@@ -234,7 +271,7 @@ def gen_cases(rng, tier, ctx):
     # ---- layouts of the completely swept scopes (3,2) and (2,3) that the python oracle rejected (thorough tier)
     cases.extend(ctx.get('c19_sweep_rejected', []))
     # ---- histories driven through the real driver bookkeeping (fake instrument)
-    n_hist = 400 if not thorough else 8000
+    n_hist = 300 if not thorough else 8000
     cases.append({'kind': 'hist', 'total': 100000, 'ops': [
         ['upload', 1, [[11, 192], [12, 208]], False], ['upload', 2, [[12, 208], [13, 384]], False], ['remove', 1],
         ['upload', 3, [[14, 192], [12, 208], [15, 400]], False], ['upload', 2, [[16, 192]], True],
@@ -265,6 +302,17 @@ def gen_cases(rng, tier, ctx):
         for k in range(150):
             ops = [list(rng.choice(alpha)) for _ in range(rng.choice([3, 4, 5]))]
             cases.append(dict({'kind': 'hist', 'total': 100000, 'ops': ops}, **({'driver': 'feature'} if k % 4 == 0 else {})))
+    # ---- round 4: a re-used slot that is unreferenced and lies at the tail (forced re-upload, free without cleanup,
+    # refused uploads in between), every length dtype, both drivers
+    for c in c19_families.tail_reuse_family():
+        for k, ld in enumerate(['u8', 'u4', 'i8', 'list']):
+            cases.append(dict(c, len_dtype=ld))
+            if k < 2 or thorough:
+                cases.append(dict(c, len_dtype=ld, driver='feature'))
+    for c in c19_families.lens_family():
+        for ld in ('u8', 'u4'):
+            cases.append(dict(c, len_dtype=ld))
+            cases.append(dict(c, len_dtype=ld, driver='feature'))
     cases.append({'kind': 'hist', 'driver': 'feature', 'total': 2000, 'ops': [
         ['upload', 1, [[11, 208], [15, 400], [26, 256], [4, 192]], True], ['upload', 1, [[11, 208], [25, 400], [23, 384]], True]]})
     return cases
@@ -304,7 +352,7 @@ def _sweep_vo_fresh():
     try:
         t = os.path.getmtime(os.path.join(d, 'Sweep.vo'))
         return all(os.path.getmtime(os.path.join(d, f + ext)) <= t
-                   for f in ('Model', 'Spec', 'Driver', 'Corr', 'Sweep') for ext in ('.v', '.vo') if f + ext != 'Sweep.vo')
+                   for f in ('Model', 'Spec', 'Driver', 'DriverLens', 'Corr', 'Sweep') for ext in ('.v', '.vo') if f + ext != 'Sweep.vo')
     except OSError:
         return False
 
@@ -450,7 +498,8 @@ def _rand_hist(rng, idle_p=0.0):
         else:
             ops.append(['clear'])
             known = []
-    return {'kind': 'hist', 'total': total, 'ops': ops}
+    # round 4: the lengths arrive as uint64 (what TaborProgram delivers) most of the time
+    return {'kind': 'hist', 'total': total, 'ops': ops, 'len_dtype': rng.choice(['u8', 'u8', 'u8', 'u4', 'i8', 'list'])}
 
 
 def _slot0_family():
@@ -516,6 +565,12 @@ def _small_histories(length):
 def _arrays(case):
     import numpy as np
     dt = case.get('dtype', 'i8')
+    if case.get('dts'):
+        # round 4: an explicit dtype per array ('list' = python list, new-segment arrays only)
+        d = case['dts']
+        mk = lambda xs, t: list(xs) if t == 'list' else np.asarray(xs, dtype=np.dtype(t))
+        return (mk(case['hashes'], d.get('h', 'i8')), mk(case['refs'], d.get('r', 'i8')), mk(case['caps'], d.get('c', 'i8')),
+                mk(case['new_hashes'], d.get('nh', 'i8')), mk(case['new_lens'], d.get('nl', 'i8')))
     hashes = np.asarray(case['hashes'], dtype=np.int64)
     if dt == 'drv':
         refs = np.asarray(case['refs'], dtype=np.uint32)
@@ -534,6 +589,13 @@ def _arrays(case):
     return hashes, refs, caps, nh, nl
 
 
+def _eff_len_dtype(case):
+    """dtype of the lengths the stand-in TaborProgram hands to upload().  The feature driver's copy of the placement takes an
+    np.ndarray (it does not call np.asarray): a python list is outside its contract and becomes uint64 there."""
+    ld = case.get('len_dtype', 'u8')
+    return 'u8' if ld == 'list' and case.get('driver') == 'feature' else ld
+
+
 def run_impl(case):
     import warnings
     import numpy as np
@@ -541,7 +603,8 @@ def run_impl(case):
         from props import c19_driver
         try:
             with vlib.time_limit(20):
-                return {'steps': c19_driver.run_history(case['total'], case['ops'], driver=case.get('driver', 'awgs'))}
+                return {'steps': c19_driver.run_history(case['total'], case['ops'], driver=case.get('driver', 'awgs'),
+                                                        len_dtype=_eff_len_dtype(case))}
         except vlib.Timeout:
             return {'hang': True}
         except Exception as e:
@@ -569,6 +632,7 @@ def run_impl(case):
                                            total_capacity=case['total'], _free_points_in_total=0, _free_points_at_end=0)
                 w2s, ta, ti = F.TaborChannelTuple._find_place_for_segments_in_memory(
                     me, [c19_driver.Seg(int(h), int(l)) for h, l in zip(case['new_hashes'], case['new_lens'])],
+                    nl if case.get('dts') and not isinstance(nl, list) else
                     np.asarray(case['new_lens'], dtype=np.uint32 if case.get('dtype') == 'drv' else np.int64))
             else:
                 w2s, ta, ti = find_place_for_segments_in_memory(
@@ -636,8 +700,11 @@ def _g_op(op):
 def _g_step(st):
     progs = glist(lambda p: '(%s, %s, %s)' % (vlib.gnat(p[0]), _zl(p[1]), _zl(p[2])), st['progs'])
     dev = glist(lambda x: vlib.gopt(gZ, x), st['dev'])
-    return ('{| ho_err := %s; ho_hashes := %s; ho_caps := %s; ho_refs := %s; ho_progs := %s; ho_dev := %s |}'
-            % (HERR.get(st['err'], 'HInternal'), _zl(st['hashes']), _zl(st['caps']), _zl(st['refs']), progs, dev))
+    devlen = glist(lambda x: vlib.gopt(gZ, x), st['devlen'])
+    return ('{| ho_err := %s; ho_hashes := %s; ho_caps := %s; ho_refs := %s; ho_progs := %s; ho_dev := %s; '
+            'ho_lens := %s; ho_devlen := %s; ho_plens := %s |}'
+            % (HERR.get(st['err'], 'HInternal'), _zl(st['hashes']), _zl(st['caps']), _zl(st['refs']), progs, dev,
+               _zl(st['lens']), devlen, glist(_zl, st['plens'])))
 
 
 def to_coq(case, obs):
@@ -731,6 +798,20 @@ def hist_safe(case, obs):
                 if st['refs'][q] < 1:
                     return 'step %d (%s): slot %d is used by program %d but has reference count %d' % (
                         k, case['ops'][k][0], q, name, st['refs'][q])
+        # round 4: defined lengths.  A slot plays as many points as the instrument has defined for it.
+        if len(st['plens']) != len(st['progs']):
+            return 'step %d: observation is inconsistent (program lengths)' % k
+        for (name, w2s, segs), pl in zip(st['progs'], st['plens']):
+            for j, (q, l) in enumerate(zip(w2s, pl)):
+                if st['devlen'][q] != l:
+                    return 'step %d (%s): lengths: slot %d is defined with %r points on the instrument, waveform %d of program %d has %d' % (
+                        k, case['ops'][k][0], q, st['devlen'][q], j, name, l)
+        if st['devlen'] != st['lens']:
+            return 'step %d (%s): lengths: the driver records segment lengths %r but the instrument has %r defined' % (
+                k, case['ops'][k][0], st['lens'], st['devlen'])
+        if len(st['lens']) != len(st['caps']) or any(l > c for l, c in zip(st['lens'], st['caps'])):
+            return 'step %d (%s): lengths: defined lengths %r exceed the capacities %r' % (
+                k, case['ops'][k][0], st['lens'], st['caps'])
     return None
 
 
@@ -761,8 +842,20 @@ def nontrivial(case, obs):
     return bool(case['hashes']) and unknown and ('ret' in obs or obs.get('refused') == 'Fragmentation')
 
 
+def prev_after_free(prev, op):
+    """reference counts of `prev` after the free_program that a forced upload of a known name starts with"""
+    refs = list(prev['refs'])
+    if op[0] == 'upload' and op[3]:
+        for name, w2s, _ in prev['progs']:
+            if name == op[1]:
+                for q in set(w2s):
+                    refs[q] -= 1
+    return refs
+
+
 def _hist_keys(case, obs):
-    keys = ['hist', 'hist:len:%d' % len(case['ops']), 'hist:driver:%s' % case.get('driver', 'awgs')]
+    keys = ['hist', 'hist:len:%d' % len(case['ops']), 'hist:driver:%s' % case.get('driver', 'awgs'),
+            'hist:len_dtype:%s' % _eff_len_dtype(case)]
     if 'steps' not in obs:
         return keys + ['obs:crash']
     prev = None
@@ -789,6 +882,20 @@ def _hist_keys(case, obs):
             keys.append('hist:program-with-duplicate-segment')
         if prev is not None and op[0] in ('remove', 'cleanup') and len(st['dev']) < len(prev['dev']):
             keys.append('hist:cleanup-dropped-slots')
+        if any(l < c for l, c in zip(st['lens'], st['caps'])):
+            keys.append('hist:lens:slot-defined-shorter-than-capacity')
+        if prev is not None and op[0] == 'upload' and st['err'] is None and len(st['dev']) > len(prev['dev']) - 0:
+            keys.append('hist:lens:amend-' + ('flush-length-table' if st['flushes'] > prev['flushes'] else 'per-segment-def'))
+        if prev is not None and op[0] == 'upload' and st['err'] is None and prev['refs'] and len(prev['refs']) >= 2:
+            # the upload re-used a slot that was unreferenced and behind the last referenced slot (seed C19-6 class)
+            last_ref = max(i for i, r in enumerate(prev_after_free(prev, op)) if r > 0)
+            pr = prev_after_free(prev, op)
+            new = [p for p in st['progs'] if p[0] == op[1]]
+            if new and any(q > last_ref and q < len(pr) and pr[q] == 0 and prev['hashes'][q] == h
+                           for q, h in zip(new[0][1], new[0][2])):
+                keys.append('hist:upload-reused-unreferenced-tail-slot')
+                if len(st['dev']) > last_ref + 1 + sum(1 for q in new[0][1] if last_ref < q < len(pr)):
+                    keys.append('hist:upload-reused-unreferenced-tail-slot-and-appended')
         prev = st
     return sorted(set(keys))
 
@@ -800,6 +907,15 @@ def histogram_keys(case, obs):
         return c19_prims.keys(case, obs)
     keys = ['place', 'place:impl:%s' % case.get('impl', 'shared'), 'slots:%s' % min(len(case['hashes']), 8), 'new:%s' % min(len(case['new_hashes']), 6),
             'dtype:%s' % case.get('dtype', 'i8')]
+    if case.get('dts'):
+        d = case['dts']
+        keys += ['dts:refs:%s' % d['r'], 'dts:caps:%s' % d['c'], 'dts:new_lens:%s' % d['nl'], 'dts:new_hashes:%s' % d['nh']]
+        if d['nl'] in ('u8', 'u4', 'u2') or d['c'] == 'u4' or d['r'] == 'u4':
+            keys.append('dts:some-unsigned')
+        if case.get('note') == 'dtype-family':
+            keys.append('dts:family')
+        if max(case['caps'] + case['new_lens'] + [0]) >= 2 ** 20:
+            keys.append('dts:sizes-near-instrument-capacity')
     if 'ret' in obs:
         w, a, i = obs['ret']
         keys.append('obs:decision')
@@ -929,14 +1045,21 @@ MANIFEST = {
                   'slots hold its own data and stay referenced, and the defined slots never need more than the total '
                   'capacity (unguarded since /repo 4f02520); reference counts dominate the number of programs playing from '
                   'a slot (+1 for the idle slot 0, which keeps the idle waveform and is never released, also when programs '
-                  'with an identical segment share it).  Proof (numpy primitives): each of the 14 list models meets the '
+                  'with an identical segment share it); round 4: the count of every slot EQUALS the number of known programs '
+                  'playing from it (+1 for slot 0), and - in the model extended by _segment_lengths and the instrument\'s '
+                  'table of defined lengths (refinement of the driver model, proved) - every slot is defined with the length of '
+                  'the segment it holds, in particular every waveform of every known program.  Proof (unstable sort of the '
+                  'feature copy): for EVERY tie order of its two argsort calls (oracle per call) the decision satisfies the '
+                  'four clauses and the history theorem holds.  Proof (numpy primitives): each of the 14 list models meets the '
                   'independent specification evaluated on numpy\'s output.  The models are tied to the code by exact correspondence '
                   'checks against the real function, against the real bookkeeping of both Tabor drivers on a fake '
                   'instrument, and per numpy primitive against numpy.',
     'level_note': 'The history theorems are about a hand-written model of the driver bookkeeping; both driver files need '
                   'tabor_control, so the model is tied to them only by running the real classes against a fake instrument '
                   'with sampling replaced by stand-ins.  The copy of the placement inside feature_awg/tabor.py sorts '
-                  'unstably: compared exactly only on tie-free inputs, four clauses always.  A liveness remark (spurious '
+                  'unstably: compared exactly only on tie-free inputs, four clauses always (that all tie orders are safe is '
+                  'a theorem about the oracle model, not a comparison).  The length theorems assume that a hash determines the '
+                  'segment length.  A liveness remark (spurious '
                   'Fragmentation refusal, C19_liveness_refuted) is recorded but is not part of the property.  Trusted: '
                   'Coq kernel, numpy primitives as list models (tested per primitive against a specification the model '
                   'provably meets; nothing is proved about numpy), harness, fake instrument.',
